@@ -145,6 +145,7 @@ Section Round.
     set (named := match get_str (st x1) d str_NAME with Some nm => _ | None => _ end).
     assert (Hn : XPost QA named).
     { unfold named. destruct (get_str (st x1) d str_NAME) as [nm|]; [|intros _; exact Q1].
+      cbv zeta. destruct (fresh_ctr _ _ _ _ _ _) as [k|]; [|intro H; discriminate].
       apply (xpost_liftR QA); [intros _; cbn [st]; apply (qa_struct _ _ (se_dict_set _ _ _ _) Q1)|]. intros x3 Q3.
       destruct (get_str (st x3) (next s) str_IDENT) as [idv|]; [|intros _; exact Q3].
       apply (xpost_liftR QA); [intros _; apply (qa_struct _ _ (se_dict_set _ _ _ _) Q3)|]. intros x4 Q4 _. exact Q4. }
